@@ -323,6 +323,10 @@ def fixed_corpus():
     out.append(Def([L('regex', '(?-u)[\\x00-\\x20]*[\\x41-\\x5a]'), L('regex', '(?-u)[^"]*"', prio=1)], utf8=False, origin='fixed:bytes-openrange'))
     # long literals that share nothing with the other patterns (chains of single-byte, single-edge states longer than a chunk)
     out.append(Def([L('token', '<!DOCTYPE html>'), L('token', '<!--'), L('regex', '[a-z]+'), L('token', 'synchronized_block'), L('skip', ' ')], origin='fixed:long-literals'))
+    # a self loop over all 256 byte values (only possible in byte mode): a trailer that swallows the rest of the input, reached
+    # as the first token, after other tokens and after a skip
+    out.append(Def([L('regex', '#(?s-u:.)*', allow_greedy=True), L('regex', '[a-z]+'), L('skip', ' +')], utf8=False, origin='fixed:bytes-trailer'))
+    out.append(Def([L('regex', '(?s-u)%.*', allow_greedy=True, prio=9), L('regex', '[0-9]+'), L('token', '='), L('skip', '[ \\t]')], utf8=False, origin='fixed:bytes-trailer2'))
     # byte classes with a one-byte hole, on a non-self edge of a state with few edges (rendered as a range test plus an excluded
     # byte): the hole next to the bottom, in the middle and next to the top of the range, str and byte mode
     out.append(Def([L('regex', "'[[:ascii:]&&[^']]'"), L('regex', '[a-z]+')], origin='fixed:hole-ascii'))
